@@ -5,5 +5,6 @@ CONSTANTS Variant = "ok"
  MaxN = 6
  MaxV = 4
  MaxRedel = 0
+ MaxFault = 0
 INVARIANTS Emit
 CHECK_DEADLOCK FALSE
